@@ -1,12 +1,12 @@
-(* C04 at deadline level: DeadlineInv holds initially and is preserved by the deadline operations
-   (all except compact_partitions, whose proof is not done: the theorem is named _partial);
+(* C04 at deadline level: DeadlineInv holds initially and is preserved by every deadline operation;
    every sector of a deadline is in exactly one partition; sector numbers are allocated once;
    assign_deadlines gives every sector exactly one of the offered deadlines. *)
 From Coq Require Import ZArith List Bool Lia.
 From stdpp Require Import gmap.
 From VF Require Import Base.SetSum Model.Partition Model.PartitionInv Model.Deadline
   Model.DeadlineInv Proofs.Partition_base Proofs.Partition_lists Proofs.Partition_ops1
-  Proofs.Deadline_base Proofs.Deadline_ops1 Proofs.Deadline_ops2 Proofs.Deadline_ops3.
+  Proofs.Deadline_base Proofs.Deadline_ops1 Proofs.Deadline_ops2 Proofs.Deadline_ops3
+  Proofs.Deadline_ops4.
 Import ListNotations.
 Open Scope Z_scope.
 
@@ -28,12 +28,9 @@ Qed.
 Lemma dl_sectors_allsecs d : dl_sectors d = allsecs (parts d).
 Proof. reflexivity. Qed.
 
-Definition not_compact (o : dop) : Prop := match o with DCompact _ => False | _ => True end.
-
-Theorem dsinv_step_partial st o :
-  DsInv st -> dop_wf st o -> not_compact o -> DsInv (dnext st o).
+Theorem dsinv_step st o : DsInv st -> dop_wf st o -> DsInv (dnext st o).
 Proof.
-  intros (Hu & Hps & Hk & HD) Hwf Hnc. unfold dnext, dstep.
+  intros (Hu & Hps & Hk & HD) Hwf. unfold dnext, dstep.
   destruct st as [qs psize tbl d alloc]. cbn [ds_q ds_psize ds_tbl ds_dl ds_alloc] in *.
   assert (Hsame : DsInv {| ds_q := qs; ds_psize := psize; ds_tbl := tbl; ds_dl := d; ds_alloc := alloc |})
     by (exact (conj Hu (conj Hps (conj Hk HD)))).
@@ -73,7 +70,9 @@ Proof.
     apply Hchk; [exact Hk|]. eapply d_record_faults_inv; eauto.
   - destruct (d_declare_faults_recovered tbl d psm) as [d'|] eqn:E; [|exact Hsame].
     apply Hchk; [exact Hk|]. eapply d_declare_faults_recovered_inv; eauto.
-  - contradiction.
+  - destruct (d_compact_partitions qs tbl d psize tr) as [[d' dead]|] eqn:E; [|exact Hsame].
+    destruct (d_compact_partitions_inv qs tbl d psize tr d' dead Hu Hk Hps HD E) as [HD' Hk'].
+    apply Hchk; assumption.
   - destruct (d_pop_early_terminations d mp ms) as [[[[[d' res] np] ns] more]|] eqn:E; [|exact Hsame].
     apply Hchk; [exact Hk|]. eapply d_pop_early_terminations_inv; eauto.
   - destruct (allocate_sector_numbers alloc (lset nums) allow); cbn [fst]; [|exact Hsame].
@@ -155,14 +154,13 @@ Proof.
     + rewrite <- Hidx. apply Hin, Hx.
 Qed.
 
-Theorem dsinv_reachable_partial unit off psize ops :
-  0 < unit -> 0 < psize -> Forall not_compact ops -> dall_wf (dinit unit off psize) ops ->
+Theorem dsinv_reachable unit off psize ops :
+  0 < unit -> 0 < psize -> dall_wf (dinit unit off psize) ops ->
   DsInv (drun (dinit unit off psize) ops).
 Proof.
-  intros Hu Hp. assert (H : forall st, DsInv st -> Forall not_compact ops -> dall_wf st ops ->
-                           DsInv (drun st ops)).
-  { induction ops as [|o r IH]; intros st HS Hnc Hwf; [exact HS|].
-    apply Forall_cons in Hnc as [Hn1 Hn2]. destruct Hwf as [H1 H2]. cbn [drun fold_left].
-    apply IH; [apply dsinv_step_partial; assumption|exact Hn2|exact H2]. }
-  intros Hnc Hwf. apply H; [apply dsinv_init; assumption|exact Hnc|exact Hwf].
+  intros Hu Hp. assert (H : forall st, DsInv st -> dall_wf st ops -> DsInv (drun st ops)).
+  { induction ops as [|o r IH]; intros st HS Hwf; [exact HS|].
+    destruct Hwf as [H1 H2]. cbn [drun fold_left].
+    apply IH; [apply dsinv_step; assumption|exact H2]. }
+  intros Hwf. apply H; [apply dsinv_init; assumption|exact Hwf].
 Qed.
